@@ -27,6 +27,8 @@ IDENTITYLESS = {"numpy.amax", "numpy.amin", "numpy.mean", "numpy.median", "numpy
 
 def check(ctx):
     repo = ctx.repo
+    from . import generic as _gen
+    _gen.language_traps(ctx, _gen.anchor_functions(repo, "C07"), "the property holds for every input, on every call")
     from . import generic
     # explicit bounds tests of the positional helpers: a test under which the default is returned WITHOUT trying the index may
     # hold only for indices Python indexing rejects (decided exactly by sa/intpred.py: the test touches index and length only
